@@ -262,6 +262,10 @@ func (g *G) otherAsset(asset string) string {
 // capExpr is a monetary of the statement's asset, or (rarely, never in Safe
 // mode) of another asset.
 func (g *G) capExpr(asset string) *Expr {
+	if !g.P.Safe && g.chance(0.04) {
+		// a negative cap is legal (it is clipped to zero)
+		return Mon(g.assetExprFor(asset), Num(fmt.Sprint(-1-g.R.IntN(20))))
+	}
 	if !g.P.Safe && g.chance(g.P.PWrongAsset) {
 		e, _ := g.monetaryExpr(g.otherAsset(asset))
 		return e
